@@ -59,6 +59,6 @@ func init() {
 			"volumeJSONNames": jsonName,
 		}
 		b, _ := json.MarshalIndent(out, "", " ")
-		os.WriteFile("/verif/work/facts_dump.json", b, 0o644)
+		os.WriteFile(verifDir()+"/work/facts_dump.json", b, 0o644)
 	}
 }
